@@ -19,6 +19,9 @@ EVDRV = os.path.join(LEAN_DIR, '.lake', 'build', 'bin', 'evdrv')
 # The guard for in-source hooks (none exist at present; see MANIFEST.hooks)
 os.environ.setdefault('ELECTRUMX_VERIF', '1')
 
+import logging
+logging.disable(logging.CRITICAL)   # the real classes log a lot; nothing is compared from logs
+
 if sys.path[0] != REPO:
     sys.path.insert(0, REPO)
 
